@@ -377,7 +377,7 @@ def mGcLoop : Nat → List Int → MM Unit
     | (.error e, m1) => (.error e, m1)
     | (.ok work, m1) => mGcLoop f work m1
 
-/-- `{u for u in roots if not self.ref(u)}` (elements as given, signed) -/
+/-- `{abs(u) for u in roots if not self.ref(u)}` -/
 def mUnusedOf : List Int → MM (List Int)
   | [] => fun m => (.ok [], m)
   | u :: rest => fun m =>
@@ -386,7 +386,9 @@ def mUnusedOf : List Int → MM (List Int)
     | some c =>
       match mUnusedOf rest m with
       | (.error e, m1) => (.error e, m1)
-      | (.ok r, m1) => if c = 0 then (.ok (if r.contains u then r else u :: r), m1) else (.ok r, m1)
+      | (.ok r, m1) =>
+        if c = 0 then (.ok (if r.contains (u.natAbs : Int) then r else (u.natAbs : Int) :: r), m1)
+        else (.ok r, m1)
 
 /-- `collect_garbage(roots)`; `none` = `self._ref` -/
 def mCollectGarbage (roots : Option (List Int)) : MM Unit := fun m =>
